@@ -1,8 +1,8 @@
-(* Hist/ProofsC06Ex.v - concrete evaluations for C06 (all by vm_compute on the faithful string-level model):
-   (1) `_refuted` witnesses: the UNCONDITIONAL refinement statement is false of the model of the pinned code -
-       same-second runs (F6a), glob metacharacters in the DAG name (F6b), stamp-like DAG names (F6c).  Each
-       witness trace falsifies exactly one premise of the `_partial` theorem (ProofsC06.refinement).
-       Replayed on the real jsondb (findings/C06-*.json) they are the findings.
+(* Hist/ProofsC06Ex.v - concrete evaluations for C06 (all by vm_compute on the string-level model of the REPAIRED code):
+   (1) the former `_refuted` witnesses - same-second runs (F6a), glob metacharacters in the DAG name (F6b), stamp-like DAG
+       names (F6c), update during a run (F6d) - now satisfy every premise of the refinement theorem and are answered as the
+       specification says (each with a note of what the model of the pinned code answered before the fix);
+       two premises that are still needed are shown to be needed: identical start stamps, re-created paths.
    (2) the premises are satisfiable: a trace over four DAG names (shared prefixes, a space, the _c suffix) with
        open/write/close, update, rename, retention and interleaved queries by two readers and the operating
        process satisfies every premise, and its answers are the (non-trivial) ones of the specification. *)
@@ -19,6 +19,7 @@ Definition dh (d : string) : string :=
   if String.eqb d "/x/a b.yaml" then "55de50f18204bb351511ad74240b0358" else
   if String.eqb d "/x/w_c.yaml" then "c4dbda5f752c13c8d558e9a058c82b07" else
   if String.eqb d "/x/a[1].yaml" then "0b0bb5b6b0c1e6e2c2b0d0d1c5e5a5f5" else
+  if String.eqb d "/x/q*.yaml" then "7c1d3f6a9b2e4d5f8a0b1c2d3e4f5a6b" else
   if String.eqb d "/x/n20240101.10:00:00.yaml" then "11538ca288a971e68a5fe691b6628a7b" else "00000000000000000000000000000000".
 Definition loc := "/data".
 (* operations with times and sizes written as nat literals *)
@@ -34,53 +35,82 @@ Definition ab := "/x/ab.yaml".
 Definition asp := "/x/a b.yaml".
 Definition wc := "/x/w_c.yaml".
 
-(* ---- F6a: two runs of one DAG started in the same second ------------------------------------------------------- *)
+(* ---- F6a (fixed by e6d6379): two runs of one DAG started in the same second -------------------------------------------- *)
 Definition esA : list ev :=
   [xOpen a "20240101.10:00:00.100" "req-aaaa-1" 1; xWrite 1 10 2; xClose 3;
    xOpen a "20240101.10:00:00.300" "req-bbbb-2" 4; xWrite 2 10 5; xClose 6;
    ELatest (Some 0) a None; ERecent (Some 0) a 2].
 Definition runsA := [("20240101.10:00:00.100", "req-aaaa"); ("20240101.10:00:00.300", "req-bbbb")].
-Lemma refuted_same_second : exists es, ytrace loc dh sys_init es <> sp_trace hist_init es.
-Proof. exists esA. vm_compute. intro X. discriminate X. Qed.
-(* the store says the FIRST run is the latest, and lists the runs oldest first *)
-Lemma same_second_answers :
-  ytrace loc dh sys_init esA = [ANone; ANone; ANone; ANone; ANone; ANone;
-     ALatest (LOk (pl "req-aaaa-1" 1 10));
-     ARecent [(pl "req-aaaa-1" 1 10); (pl "req-bbbb-2" 2 10)]]
-  /\ sp_trace hist_init esA = [ANone; ANone; ANone; ANone; ANone; ANone;
-     ALatest (LOk (pl "req-bbbb-2" 2 10));
-     ARecent [(pl "req-bbbb-2" 2 10); (pl "req-aaaa-1" 1 10)]].
-Proof. split; vm_compute; reflexivity. Qed.
-(* the string premises hold; the premise that fails is "start stamps distinct at seconds" (hist_okb inside evs_okb) *)
-Lemma same_second_premise :
-  names_okb loc dh [a] [] (univ [a] runsA) = true /\ closedb [a] (univ [a] runsA) = true
-  /\ forallb (ev_inb [a] [] (univ [a] runsA)) esA = true /\ evs_okb loc dh ysys_init hist_init esA = false.
+(* before fix e6d6379 the model answered: latest = req-aaaa-1 (the OLDER run), recent 2 = [req-aaaa-1; req-bbbb-2] (oldest first),
+   and the premise "start stamps distinct at seconds" failed for this trace *)
+Example fixed_same_second :
+  all_premisesb loc dh [a] [] (univ [a] runsA) esA = true
+  /\ ytrace loc dh sys_init esA = [ANone; ANone; ANone; ANone; ANone; ANone;
+        ALatest (LOk (pl "req-bbbb-2" 2 10)); ARecent [(pl "req-bbbb-2" 2 10); (pl "req-aaaa-1" 1 10)]]
+  /\ sp_trace hist_init esA = ytrace loc dh sys_init esA.
 Proof. repeat split; vm_compute; reflexivity. Qed.
 
-(* ---- F6b: a glob metacharacter in the DAG name ------------------------------------------------------------------- *)
+(* ---- F6b (fixed by 8ffc003): glob metacharacters in the DAG name ------------------------------------------------------------- *)
 Definition b := "/x/a[1].yaml".
+Definition q := "/x/q*.yaml".
 Definition esB : list ev :=
-  [xOpen b "20240101.10:00:00.100" "req-aaaa-1" 1; xWrite 1 10 2; xClose 3; EFind b "req-aaaa-1"; ELatest None b None].
-Lemma refuted_glob_meta : exists es, ytrace loc dh sys_init es <> sp_trace hist_init es.
-Proof. exists esB. vm_compute. intro X. discriminate X. Qed.
-Lemma glob_meta_answers :
-  ytrace loc dh sys_init esB = [ANone; ANone; ANone; AFind None; ALatest LNoData]
-  /\ sp_trace hist_init esB = [ANone; ANone; ANone; AFind (Some (pl "req-aaaa-1" 1 10));
-                               ALatest (LOk (pl "req-aaaa-1" 1 10))].
-Proof. split; vm_compute; reflexivity. Qed.
-Lemma glob_meta_premise : names_okb loc dh [b] [] (univ [b] [("20240101.10:00:00.100", "req-aaaa")]) = false.
-Proof. vm_compute. reflexivity. Qed.
+  [xOpen b "20240101.10:00:00.100" "req-aaaa-1" 1; xWrite 1 10 2; xClose 3; EFind b "req-aaaa-1"; ELatest None b None;
+   EOp (ORename b q); EFind q "req-aaaa-1"; EFind b "req-aaaa-1"; ERecent (Some 1) q 3].
+Definition runsB := [("20240101.10:00:00.100", "req-aaaa")].
+(* before fix 8ffc003 the model answered: find = None and latest = no data for a[1] (its own history invisible), and the string
+   premise names_okb failed for this name *)
+Example fixed_glob_meta :
+  all_premisesb loc dh [b; q] [] (univ [b; q] runsB) esB = true
+  /\ ytrace loc dh sys_init esB = [ANone; ANone; ANone; AFind (Some (pl "req-aaaa-1" 1 10)); ALatest (LOk (pl "req-aaaa-1" 1 10));
+        ANone; AFind (Some (pl "req-aaaa-1" 1 10)); AFind None; ARecent [(pl "req-aaaa-1" 1 10)]]
+  /\ sp_trace hist_init esB = ytrace loc dh sys_init esB.
+Proof. repeat split; vm_compute; reflexivity. Qed.
 
-(* ---- F6c: a DAG name containing something shaped like a time stamp ---------------------------------------------------- *)
+(* ---- F6c (fixed by e6d6379): a DAG name containing something shaped like a time stamp ------------------------------------------- *)
 Definition c := "/x/n20240101.10:00:00.yaml".
 Definition esC : list ev :=
   [xOpen c "20240202.10:00:00.000" "req-aaaa-1" 1; xWrite 1 10 2; xClose 3;
    xOpen c "20240202.10:01:00.000" "req-bbbb-2" 4; xWrite 2 10 5; xClose 6; ELatest (Some 0) c None].
-Lemma refuted_stamp_like_name : exists es, ytrace loc dh sys_init es <> sp_trace hist_init es.
-Proof. exists esC. vm_compute. intro X. discriminate X. Qed.
-Lemma stamp_like_premise :
-  names_okb loc dh [c] [] (univ [c] [("20240202.10:00:00.000", "req-aaaa"); ("20240202.10:01:00.000", "req-bbbb")]) = false
-  /\ evs_okb loc dh ysys_init hist_init esC = true.
+Definition runsC := [("20240202.10:00:00.000", "req-aaaa"); ("20240202.10:01:00.000", "req-bbbb")].
+(* before fix e6d6379 the model answered: latest = req-aaaa-1 (every file of this DAG got the key 20240101.10:00:00 from its own
+   directory name), and names_okb failed *)
+Example fixed_stamp_like_name :
+  all_premisesb loc dh [c] [] (univ [c] runsC) esC = true
+  /\ ytrace loc dh sys_init esC = [ANone; ANone; ANone; ANone; ANone; ANone; ALatest (LOk (pl "req-bbbb-2" 2 10))]
+  /\ sp_trace hist_init esC = ytrace loc dh sys_init esC.
+Proof. repeat split; vm_compute; reflexivity. Qed.
+
+(* ---- F6d (fixed by e2affa2): a manual update of the run that is still being recorded ----------------------------------------------- *)
+Definition esD : list ev :=
+  [xOpen a "20240101.10:00:00.100" "req-aaaa-1" 1; xWrite 1 10 2; xUpdate a "req-aaaa-1" 2 12 3; ELatest (Some 0) a None;
+   xWrite 3 10 4; ELatest (Some 0) a None; EFind a "req-aaaa-1"].
+(* before fix e2affa2 histories of this shape were outside the model's domain (the creating descriptor had no O_APPEND: the real
+   store overwrote the update in place and the reader's cache kept answering status 2 after status 3 was written) *)
+Example fixed_update_during_run :
+  all_premisesb loc dh [a] [] (univ [a] runsA) esD = true
+  /\ ytrace loc dh sys_init esD = [ANone; ANone; ANone; ALatest (LOk (pl "req-aaaa-1" 2 12)); ANone; ALatest (LOk (pl "req-aaaa-1" 3 10));
+                                  AFind (Some (pl "req-aaaa-1" 3 10))]
+  /\ sp_trace hist_init esD = ytrace loc dh sys_init esD.
+Proof. repeat split; vm_compute; reflexivity. Qed.
+
+(* ---- premises that are still needed, and why ------------------------------------------------------------------------------------------ *)
+(* identical start stamps (same millisecond) of two runs of one DAG: "most recently started" is undefined; the specification breaks
+   the tie by recording order, the store by file name *)
+Definition esM : list ev :=
+  [xOpen a "20240101.10:00:00.100" "req-zzzz-1" 1; xWrite 1 10 2; xClose 3;
+   xOpen a "20240101.10:00:00.100" "req-bbbb-2" 4; xWrite 2 10 5; xClose 6; ELatest (Some 0) a None].
+Lemma same_ms_needs_premise :
+  (exists es, ytrace loc dh sys_init es <> sp_trace hist_init es) /\ evs_okb loc dh ysys_init hist_init esM = false.
+Proof. split; [exists esM|]; vm_compute; [intro X; discriminate X | reflexivity]. Qed.
+(* a path that is deleted and re-created with a status of the same size within the same second: the cache of a reader cannot see the
+   difference (same size, same mtime second) - paths embed start milliseconds and request id, so this needs a re-used request id *)
+Definition esR : list ev :=
+  [xOpen a "20240101.10:00:00.100" "req-aaaa-1" 1; xWrite 1 10 2; ELatest (Some 0) a None; xRemoveOld a 100;
+   xOpen a "20240101.10:00:00.100" "req-aaaa-1" 3; xWrite 2 10 4; ELatest (Some 0) a None; ELatest (Some 1) a None].
+Lemma recreated_path_needs_premise :
+  ytrace loc dh sys_init esR = [ANone; ANone; ALatest (LOk (pl "req-aaaa-1" 1 10)); ANone; ANone; ANone;
+                                ALatest (LOk (pl "req-aaaa-1" 1 10)); ALatest (LOk (pl "req-aaaa-1" 2 10))]
+  /\ evs_okb loc dh ysys_init hist_init esR = false.
 Proof. split; vm_compute; reflexivity. Qed.
 
 (* ---- the premises are satisfiable by a non-trivial trace ------------------------------------------------------------------ *)
